@@ -60,3 +60,11 @@ func VerifCloseDelay(sf any) (int, bool) {
 	}
 	return f.closeDelay, true
 }
+
+// VerifLenDist returns the connection's length distribution object.
+func VerifLenDist(c net.Conn) *probdist.WeightedDist {
+	if oc, ok := c.(*obfs4Conn); ok {
+		return oc.lenDist
+	}
+	return nil
+}
